@@ -661,6 +661,24 @@ class Main {
       "1\n2\n3\n3\n3\n8\n3\n113\n3\n23",
       None,
     ),
+    demo(
+      "string constants that live only in a loop (as its exit value, as the start value of a loop inlined into its caller), an exit test behind a nested loop",
+      r#"class Main {
+  function countdown(i: int, n: int): Str = if i >= n { "liftoff" } else { Main.countdown(i + 1, n) }
+  function repeat(i: int, n: int, acc: Str): Str = if i >= n { acc } else { Main.repeat(i + 1, n, acc :: "=") }
+  function inner(j: int, m: int, s: int): int = if j >= m { s } else { Main.inner(j + 1, m, s + j) }
+  function outer(i: int, acc: int): int = { let t = Main.inner(0, i, acc); if t > 20 { t } else { Main.outer(i + 1, t + 1) } }
+  function flip(i: int, n: int, a: Str, b: Str): Str = if i >= n { a } else { Main.flip(i + 1, n, b, a) }
+  function main(): unit = {
+    let _ = Process.println(Main.flip(0, "3".toInt(), "ping", "pong"));
+    let _ = Process.println(Main.countdown(0, "3".toInt()));
+    let _ = Process.println(Main.repeat(0, "3".toInt(), ">"));
+    let _ = Process.println(Str.fromInt(Main.outer("1".toInt(), 0)));
+  }
+}"#,
+      "pong\nliftoff\n>===\n24",
+      None,
+    ),
   ]
 }
 
